@@ -15,6 +15,8 @@ var byteAlphabet = [][]byte{
 	[]byte("é"), []byte("世"), []byte("😀"), []byte("\xe2\x80"), []byte("x"), []byte("0"),
 	// marker look-alikes: runes that share trailing bytes with a marker
 	[]byte("〺"), []byte("〹"), []byte("်"), []byte("္"), []byte("º"), []byte("¹"), []byte("\U00010039"), {0xE3}, {0xE1},
+	// the decoder's error value correctly encoded and cut; truncated 3- and 4-byte sequences
+	[]byte("\uFFFD"), {0xEF, 0xBF}, {0xF0, 0x9F}, {0xE3, 0x81}, []byte("\u200b"),
 }
 
 func genBytesAlpha(rt *rapid.T, label string, maxTok int) []byte {
